@@ -1,0 +1,71 @@
+#pragma once
+// Verification hooks. Everything in this file, and every use of it, is compiled
+// only when PSEUDOENGINE2_VERIF is defined; the normal build is unaffected.
+#ifdef PSEUDOENGINE2_VERIF
+#include <cstdlib>
+#include <cstring>
+#include <iostream>
+#include <string>
+
+namespace verif {
+    // Limits are read once from the environment variable PSEUDO_VERIF_BUDGET,
+    // a comma separated list "steps=N,depth=N,cells=N,nest=N" (any subset).
+    struct Budget {
+        unsigned long steps = 2000000;   // executed statements + loop iterations
+        unsigned long depth = 1000;      // active procedure / function calls
+        unsigned long cells = 1000000;   // array cells allocated
+        unsigned long nest = 1000;       // parser nesting (blocks + atoms)
+
+        unsigned long usedSteps = 0, usedDepth = 0, usedCells = 0, usedNest = 0;
+
+        Budget() {
+            const char *env = std::getenv("PSEUDO_VERIF_BUDGET");
+            if (env == nullptr) return;
+            std::string s(env);
+            size_t pos = 0;
+            while (pos < s.size()) {
+                size_t end = s.find(',', pos);
+                if (end == std::string::npos) end = s.size();
+                std::string item = s.substr(pos, end - pos);
+                size_t eq = item.find('=');
+                if (eq != std::string::npos) {
+                    std::string key = item.substr(0, eq);
+                    unsigned long val = std::strtoul(item.c_str() + eq + 1, nullptr, 10);
+                    if (key == "steps") steps = val;
+                    else if (key == "depth") depth = val;
+                    else if (key == "cells") cells = val;
+                    else if (key == "nest") nest = val;
+                }
+                pos = end + 1;
+            }
+        }
+    };
+
+    inline Budget &budget() {
+        static Budget b;
+        return b;
+    }
+
+    inline bool step() { return ++budget().usedSteps > budget().steps; }
+
+    inline bool cells(unsigned long n) {
+        budget().usedCells += n;
+        return budget().usedCells > budget().cells || n > budget().cells;
+    }
+
+    struct DepthGuard {
+        unsigned long &counter;
+        explicit DepthGuard(unsigned long &c) : counter(c) { ++counter; }
+        ~DepthGuard() { --counter; }
+    };
+
+    // End-of-entry marker for REPL sessions: lets a harness cut stdout / stderr
+    // of a batch session into per-entry segments.
+    inline void replMarker() {
+        budget().usedSteps = 0;
+        budget().usedCells = 0;
+        std::cout << '\x1e' << std::flush;
+        std::cerr << '\x1e' << std::flush;
+    }
+}
+#endif
